@@ -34,7 +34,7 @@ def sig_for(kind, text, ctx):
 def run(chk):
     rng = random.Random(chk.seed)
     chk.rule = ('grid: every token kind (48 operators, 25 keywords, 11 literal forms) x %d line-ending contexts, followed by a second line, scan mode (hook H1), '
-                'exhaustive; oracle: positions of synthetic semicolons = spec rule.  programs: every accepted corpus program and its rendering with all automatic '
+                'exhaustive; look-ahead: every text over {/ * newline c} to length 7 (with blank, to length 8, thorough) containing a comment opener, between a trigger / non-trigger token and the next token or the end of input, exhaustive; oracle: positions of synthetic semicolons = spec rule.  programs: every accepted corpus program and its rendering with all automatic '
                 'semicolons written out must give the same erased tree.  non-trivial: the reference lexer accepts the input; distinct by text.' % len(CONTEXTS))
     # ---- grid
     cases, meta = [], []
@@ -61,6 +61,36 @@ def run(chk):
     chk.count('grid', cases, [s for (m, s) in cases if gospec.tokens(s) is not None])
     chk.extra['grid_exhaustive'] = True
     chk.extra['grid_judged_by_oracle'] = judged
+    # ---- the look-ahead, exhaustively: every text over {/ * newline c blank} up to length 7 (8 thorough) between a
+    # trigger token / a non-trigger token and the next token: every way a comment can open, close, nest stars and
+    # slashes, span a line or run into the end of input
+    import itertools
+    ALPH = ['/', '*', '\n', 'c'] if chk.tier == 'quick' else ['/', '*', '\n', 'c', ' ']
+    maxw = 7 if chk.tier == 'quick' else 8
+    lc, lmeta = [], []
+    for n in range(0, maxw + 1):
+        for w in itertools.product(ALPH, repeat=n):
+            w = ''.join(w)
+            if '/*' not in w and '//' not in w and n > 3: continue          # blanks and newlines only: covered by the grid
+            for tok in ('x', ')', '+'):
+                for tail in (' y', ''):
+                    lc.append(('scan', tok + ' ' + w + tail)); lmeta.append(tok)
+    a5, b5 = run_both(chk, 'look-ahead', lc)
+    judged5 = 0
+    for (m, s_), tok, line in zip(lc, lmeta, a5):
+        ref = gospec.tokens(s_)
+        if ref is None: continue
+        judged5 += 1
+        u, js = parse_line(line)
+        exp = [t[0] for t in ref if len(t) == 4]
+        if 'toks' not in js or js.get('err') is not None:
+            chk.oracle_fail('look-ahead-error', m, s_, line[:300], exp, 'scanner failed on lexically valid input'); continue
+        got = synthetic(s_, impl_tokens(js))
+        if got != exp:
+            chk.oracle_fail('look-ahead-' + ('trigger' if tok != '+' else 'plain'), m, s_, got, exp, 'synthetic semicolons differ from the spec rule (comment shape in the look-ahead)')
+    chk.count('look-ahead', lc, [s_ for (m, s_) in lc if gospec.tokens(s_) is not None])
+    chk.extra['look_ahead_exhaustive_to'] = maxw
+    chk.extra['look_ahead_judged_by_oracle'] = judged5
     # ---- random token lines
     n = 3000 if chk.tier == 'quick' else 60000
     words = [t for _, t in tok_texts()]
@@ -118,5 +148,5 @@ def run(chk):
     chk.extra['program_pairs_equal'] = same
     for (m, s), l in list(zip(cases, a))[100:103] + list(zip(pairs, a4))[:1]:
         chk.sample({'mode': m, 'input': s, 'impl': l[:240]})
-    chk.programs = len(cases) + len(rc) + len(progs) + len(pairs)
+    chk.programs = len(cases) + len(rc) + len(progs) + len(pairs) + len(lc)
     chk.disagreements_checked = chk.programs
